@@ -221,7 +221,9 @@ Definition m_ret (s : mstmt) (cols : slice) : cmd mstmt :=
   new <- (if k_retp (sc s) && negb (slen cols =? 0)%nat then
             match sl s FRet with
             | SNil => ret SNil
-            | old => xs <- rdc cols ;; merge_append FRet old xs
+            | old => xs <- rdc cols ;;
+                     if md FRet then h_append FRet old xs      (* the body before 6cb0e65: append(v.Columns, new...) *)
+                     else o <- rdc old ;; h_lit FRet (o ++ xs)  (* make(0, len+len); append; append *)
             end
           else ret cols) ;;
   ret (set_sc (set_sl s FRet new) (set_retp (sc s))).
@@ -260,7 +262,9 @@ Definition apply_op (s : mstmt) (o : op) : cmd mstmt :=
   | OLimit n => ret (m_limit s (Some n) 0)
   | OOffset n => ret (m_limit s None n)
   | OSelect x more => c <- h_lit FSel [x] ;; do_select s c more
-  | OSelectSlice xs cap more => c <- h_user FSel xs cap ;; do_select s c more
+  | OSelectSlice xs cap more =>
+      (* Selects = append(make([]string, 0, len(v)+len(args)), v...): the caller's slice (of capacity cap) is only read *)
+      c <- h_user FSel xs (length xs + length more) ;; do_select s c more
   | ODistinct args =>
       let s1 := upd_scal s (fun k => mk_scal (k_lim k) true (k_unscoped k) (k_table k) (k_model k) (k_lock k) (k_onconf k) (k_retp k) (k_grpp k)) in
       match args with
@@ -591,15 +595,16 @@ Definition go_grow (f : field) (old needed : nat) : nat :=
   Nat.max needed (Z.to_nat (rounded / es)).
 
 (* the classification of the MergeClause bodies of the tree the model follows on check runs *)
-Definition tree_md (f : field) : bool := match f with FRet => true | _ => false end.
-Definition copy_md (f : field) : bool := false.
+Definition tree_md (f : field) : bool := false.
+(* the tree before fix 6cb0e65: Returning.MergeClause appended onto the slice stored in the clause *)
+Definition old_md (f : field) : bool := match f with FRet => true | _ => false end.
 
 (* ---- facts about the sources the model follows (regenerated on every run, FactsOK_C06) ---- *)
 Inductive mclass := MCopy | MInPlace | MNoSlice | MUnknown.
 Definition tree_classes : list (string * mclass) :=
   [("Delete"%string, MNoSlice); ("From"%string, MNoSlice); ("GroupBy"%string, MCopy); ("Insert"%string, MNoSlice);
    ("Limit"%string, MNoSlice); ("Locking"%string, MNoSlice); ("OnConflict"%string, MNoSlice);
-   ("OrderBy"%string, MCopy); ("Returning"%string, MInPlace); ("Select"%string, MNoSlice); ("Set"%string, MCopy);
+   ("OrderBy"%string, MCopy); ("Returning"%string, MCopy); ("Select"%string, MNoSlice); ("Set"%string, MCopy);
    ("Update"%string, MNoSlice); ("Values"%string, MNoSlice); ("Where"%string, MCopy)].
 Fixpoint class_of (cl : list (string * mclass)) (name : string) : mclass :=
   match cl with
